@@ -116,7 +116,7 @@ def pkgFOps : List (String × Op) := [
       | some s => match s.field? f with
         | none => throw s!"no field {m}.{f}"
         | some fld =>
-          let r := validate env validateFuel s.strict fld.ty (applyStrToList fld v)
+          let r := valFieldValue (validate env validateFuel) s.strict fld v
           pure (toJson (match r with
             | .ok (some x) => (.ok x : Res CVal)
             | .ok none => err .validation
